@@ -533,6 +533,19 @@ def check_init(ctx, P, fname, fields, calls=(), rule="init", why="a primitive th
             v = strip(s.value) if s.value is not None else None
             if isinstance(want, str) and want.startswith("param:"):
                 ok = v is not None and fn_param_name(f, v) == want[6:]
+                if ok and s.kind == "assign":
+                    # the field must be able to hold every value of the parameter: evaluate the stored (converted) value for the largest one
+                    pt = [p["t"] for p in f.params if p["name"] == want[6:]]
+                    ti = type_info(pt[0]) if pt else None
+                    if ti and not pt[0].rstrip().endswith("*"):
+                        big = (1 << (ti[0] - (1 if ti[1] else 0))) - 1
+                        try:
+                            got = ev(f, s.node, atom_from([(is_param_load(f, want[6:]), big)]))
+                            if got != big:
+                                ok = False
+                                bad = bad or "`%s` cannot hold the parameter: %s = %d is stored as %d (field type `%s`)" % (fl, want[6:], big, got, s.node.t)
+                        except Unevaluable:
+                            pass
             else:
                 ok = v is not None and (v.cv == want or (s.value.cv == want))
                 if not ok and v is not None:
@@ -724,3 +737,35 @@ def check_zeroed_alloc(ctx, P, fname, rule, what, why, file=None):
             bad = bad or ("the object allocated by `%s` is not zero-filled over its whole size (%s) before it is returned" % (a.text[:60], sz.text[:40]), a)
     o.check(bad is None, "%d variable-sized allocation(s), all zero-filled" % len(var), bad[0] if bad else None, site=bad[1] if bad else None,
             construct="trailing array not zero-initialised")
+
+
+def check_alloc_size(ctx, P, fname, rec, rule, why, kparam=0, ks=(1, 2, 10, 16, 28, 29, 30, 31), slot_bytes=8):
+    """`fname(k, ..)` creates an object of record `rec` followed by 2^k slots: for every k the API admits, the number of bytes it asks the
+    allocator for is at least sizeof(rec) + 2^k * slot_bytes (computed as the code computes it, with its types -- a 32-bit intermediate wraps)."""
+    fn = P.fn(fname)
+    o = ctx.ob(rule, fn, "for every capacity 2^k (k = %s) the allocation is at least sizeof(%s) + 2^k * %d bytes" % (", ".join(map(str, ks)), rec, slot_bytes), why)
+    allocs = [c for c in fn.calls() if c.callee in ALLOC_SIZE_ARG or c.callee == "calloc"]
+    var = []
+    for a in allocs:
+        args = fn.args(a)
+        idx = [0, 1] if a.callee == "calloc" else ALLOC_SIZE_ARG[a.callee]
+        if any(args[i].cv is None for i in idx if i < len(args)):
+            var.append((a, idx))
+    if len(var) != 1:
+        raise AnalysisBroken("%s: expected one variable-sized allocation, found %d" % (fname, len(var)))
+    a, idx = var[0]
+    hdr = P.record(rec)["size"]
+    pname = fn.params[kparam]["name"]
+    bad = None
+    for k in ks:
+        at = atom_from([(is_param_load(fn, pname), k)])
+        try:
+            total = 1
+            for i in idx:
+                total *= ev(fn, fn.args(a)[i], at) & ((1 << 64) - 1)
+        except Unevaluable as e:
+            raise AnalysisBroken("%s: cannot evaluate the allocation size (%s)" % (fname, e))
+        need = hdr + (1 << k) * slot_bytes
+        if total < need:
+            bad = bad or ("k=%d: %s asks for %d bytes, %d slots need %d (the size is computed in `%s`)" % (k, a.callee, total, 1 << k, need, fn.args(a)[idx[-1]].t), a)
+    o.check(bad is None, "%d capacities" % len(ks), bad[0] if bad else None, site=bad[1] if bad else None, construct="allocation smaller than the advertised capacity")
